@@ -543,9 +543,19 @@ package connect
 //@   tags C01
 //@   ensures err == nil ==> seq(res) == pbenc(mval(message))          // label: encodes-the-message
 
+// The peer's bytes reach protojson only after their syntax has been checked: the
+// pinned protobuf-go does not terminate on some invalid JSON (CVE-2024-24786),
+// and termination is not something these contracts can state of a dependency.
+//@ spec jsonValid(b seq) bool
+//@ trusted func json.Valid(data) res
+//@   assigns nothing
+//@   ensures res == jsonValid(seq(data))
+//@   doc: "Valid reports whether data is a valid JSON encoding."
 //@ func (*protoJSONCodec).Unmarshal(c, binary, message) res
-//@   tags C01
+//@   tags C01, C06, C07
 //@   assigns mval(message), prototarget(message)
+//@   assert@call((protojson.UnmarshalOptions).Unmarshal#1): jsonValid(seq(arg1)) && seq(arg1) == seq(binary)   // label: protojson-only-sees-syntactically-valid-json   // tags: C06, C07
+//@   ensures !jsonValid(seq(binary)) ==> res != nil   // label: invalid-json-is-rejected   // tags: C06, C07
 //@   ensures res == nil ==> mval(message) == jsondec(seq(binary))     // label: target-is-exactly-the-decoded-payload
 //@   ensures res != nil ==> !Is(res, io.EOF)                          // label: decoding-errors-are-not-eof
 
